@@ -28,8 +28,13 @@ def _explorer(which, alg_name, spec, m, K, mu, depth, res):
 def _events(ex, st, K, full):
     act = sorted((set(st["S"]) | set(st["U"])) if ex.fam == "paveba" else (set(st["S"]) | set(st["P"])) if ex.fam == "vogp" else set(st["S"]))
     evs = ex.events(dict(st, budget=1), act)
-    if full:
+    if full == 1:
         return evs
+    if full == 2:
+        # tiny menu (depth-3 units): default, three single-design items per design, the first two pair items
+        pk = ex.pair_items[:2]
+        single = set(pk) | {k for k, it in enumerate(ex.items) if ex.kind == "rect" and max(it[0]) < 0.5 and not any(it[1])} | {1}
+        return [e for e in evs if len(e) == 0 or (len(e) == 1 and next(iter(e.values())) in single) or (len(e) == 2 and all(v in pk for v in e.values()))]
     # reduced menu: single-design events over every other item (the collapsed posteriors always), pair events over
     # three of the pair items
     n = len(ex.items)
@@ -46,7 +51,7 @@ def _sets(st):
 
 def run_hist(unit, res, replay=None):
     _, which, alg_name, spec, m, K, mu, depth = unit[:8]
-    full = bool(unit[8]) if len(unit) > 8 else False
+    full = int(unit[8]) if len(unit) > 8 else 0
     core.import_vopy()
     import copy
 
@@ -121,19 +126,29 @@ def run_hist(unit, res, replay=None):
 
 
 def units(ctx, which):
+    """unit = ("hist", which, alg, spec, m, K, truth, depth, menu)  menu: 0 reduced, 1 full, 2 tiny"""
     us = []
     for alg in stepmc.ALGS:
         spec = None if alg in stepmc.ORTHANT_ONLY else ("comp", 2)
-        specs = [spec] if (spec is None or not ctx.thorough) else [("comp", 2), ("theta", 60), ("theta", 135)]
-        if alg == "VOGP" and not ctx.thorough:
-            specs = [("comp", 2), ("theta", 60)]
+        specs = [spec]
+        if spec is not None and (ctx.thorough or alg == "VOGP"):
+            specs = [("comp", 2), ("theta", 60)] + ([("theta", 135)] if ctx.thorough else [])
         for sp in specs:
             t2 = reach.truths(2, 2, ctx.thorough, ctx.seed)
-            pick = [1, 3 + ctx.seed % 3] if not alg.startswith("PartialGP") else [1 + ctx.seed % 3]
-            for mu in (t2 if ctx.thorough else [t2[k] for k in pick]):
-                us.append(("hist", which, alg, sp, 2, 2, mu.tolist(), 2, 1 if ctx.thorough else 0))
             t3 = reach.truths(3, 2, ctx.thorough, ctx.seed)
-            if ctx.thorough or (alg in ("VOGP", "EpsilonPAL", "PaVeBaGP-IH", "Auer") and sp in (None, ("comp", 2))):
-                for mu in (t3[:4] if ctx.thorough else [t3[ctx.seed % 2]]):
+            if ctx.thorough:
+                for k, mu in enumerate(t2[:6]):
+                    full = 1 if (k in (1, 3) and sp in (None, ("comp", 2))) else 0
+                    us.append(("hist", which, alg, sp, 2, 2, mu.tolist(), 2, full))
+                    if k in (1, 2, 3):
+                        us.append(("hist", which, alg, sp, 2, 2, mu.tolist(), 3, 2))  # three rounds, tiny menu
+                for mu in t3[:2]:
                     us.append(("hist", which, alg, sp, 2, 3, mu.tolist(), 2, 0))
+                continue
+            pick = [1, 3 + ctx.seed % 3] if not alg.startswith("PartialGP") else [1 + ctx.seed % 3]
+            for mu in [t2[k] for k in pick]:
+                us.append(("hist", which, alg, sp, 2, 2, mu.tolist(), 2, 0))
+            if alg in ("VOGP", "EpsilonPAL", "PaVeBaGP-IH", "Auer") and sp in (None, ("comp", 2)):
+                us.append(("hist", which, alg, sp, 2, 3, t3[ctx.seed % 2].tolist(), 2, 0))
+    us.sort(key=lambda u: (0 if u[8] == 1 else 1, -u[5]))  # full-menu units first, then K = 3
     return us
